@@ -31,6 +31,8 @@ type gen struct {
 	a          *hx.Args
 	same22     bool      // the manager is created with 2 and 2 channels: a handler whose downstream channel is taken waits
 	waiter     *waitInfo // the handler that waits for a downstream channel (at most one at a time)
+	quota      int            // how many source channels a downstream channel may serve (1; 2 with two source and one downstream channel)
+	tgtUse     map[string]int // handlers per downstream channel
 	handlerSeek map[string]uint64 // seek time of the handler of a source channel (that of the collection that created it)
 	wakes      []string  // set by newColl: the virtual channels that start reading because this collection forwarded a channel
 	handlerTgt map[string]string
@@ -68,7 +70,7 @@ func (g *gen) newColl(i int, allowErr bool) *coll {
 						ok = false // forward to a channel nobody owns: an error path, kept rare
 					}
 				}
-			} else if g.usedTgt[t] {
+			} else if g.tgtUse[t] >= g.quota {
 				if g.same22 && k == 1 && g.waiter == nil {
 					wait = j // a new handler whose downstream channel is taken: it waits
 				} else {
@@ -90,12 +92,14 @@ func (g *gen) newColl(i int, allowErr bool) *coll {
 			case j == wake:
 				g.handlerTgt[g.waiter.s] = t
 				g.usedTgt[t] = true
+				g.tgtUse[t]++
 				g.wakes = g.waiter.svchs
 				g.waiter = nil
 			default:
 				if _, has := g.handlerTgt[s]; !has {
 					g.handlerTgt[s] = t
 					g.usedTgt[t] = true
+					g.tgtUse[t]++
 				}
 			}
 		}
@@ -125,16 +129,33 @@ func sortInts(x []int) {
 
 func generate(a *hx.Args, mode string) ([]label, int) {
 	r := a.Rng
-	g := &gen{a: a, handlerTgt: map[string]string{}, usedTgt: map[string]bool{}, added: map[string]bool{}, handlerSeek: map[string]uint64{}}
-	n := 1 + r.Intn(3)
+	g := &gen{a: a, handlerTgt: map[string]string{}, usedTgt: map[string]bool{}, added: map[string]bool{}, handlerSeek: map[string]uint64{}, tgtUse: map[string]int{}, quota: 1}
+	srcs, tgts = []string{"src-dml_0", "src-dml_1"}, []string{"tgt-dml_0", "tgt-dml_1"}
 	if r.Intn(4) == 0 {
+		// physical channel names that are prefixes of each other on both sides
+		srcs, tgts = []string{"src-dml_1", "src-dml_10"}, []string{"tgt-dml_1", "tgt-dml_10"}
+	}
+	n := 1 + r.Intn(3)
+	late := false
+	switch r.Intn(8) {
+	case 0, 1:
 		// two and two channels: the wait / forward path of the manager
 		g.same22 = true
 		g.labels = append(g.labels, label{kind: "config", ns: 2, nt: 2})
 		n = 2 + r.Intn(3)
+	case 2:
+		// two source channels share the one downstream channel; a collection may be started later, from an older position
+		g.quota = 2
+		tgts = []string{tgts[0], tgts[0]}
+		g.labels = append(g.labels, label{kind: "config", ns: 2, nt: 1})
+		n = 1
+		late = true
 	}
 	lazy := r.Intn(12) == 0 // one lazily learnt partition in this case (costs half a second)
-	for i := 0; i < n; i++ {
+	ncoll := 0
+	startOne := func(older bool) {
+		i := ncoll
+		ncoll++
 		had := map[string]bool{}
 		for k := range g.handlerTgt {
 			had[k] = true
@@ -144,9 +165,9 @@ func generate(a *hx.Args, mode string) ([]label, int) {
 		}
 		c := g.newColl(i, mode == "c02")
 		if c == nil {
-			continue
+			return
 		}
-		if r.Intn(3) == 0 {
+		if r.Intn(3) == 0 || (late && r.Intn(2) == 0) {
 			// the task resumes from saved positions
 			c.seek = map[string]uint64{}
 			for _, p := range c.src {
@@ -178,8 +199,12 @@ func generate(a *hx.Args, mode string) ([]label, int) {
 			}
 		}
 		g.wakes = nil
+		tsBase := uint64(1000*(i+1) + r.Intn(500))
+		if older {
+			tsBase = uint64(200 + r.Intn(300)) // the source clock of the late collection lies behind the downstream channel's time
+		}
 		for _, p := range c.src {
-			g.streams = append(g.streams, &stream{c: c, svch: p[0], spch: p[1], ts: uint64(1000*(i+1) + r.Intn(500)), first: true, waiting: c.waitv[p[0]]})
+			g.streams = append(g.streams, &stream{c: c, svch: p[0], spch: p[1], ts: tsBase, first: true, waiting: c.waitv[p[0]]})
 		}
 		for k := 1; k <= 2; k++ {
 			if r.Intn(2) == 0 {
@@ -191,10 +216,12 @@ func generate(a *hx.Args, mode string) ([]label, int) {
 				ss, ts := append([][2]string{}, c.src...), append([][2]string{}, c.tgt...)
 				sort.Slice(ss, func(a, b int) bool { return ss[a][0] < ss[b][0] })
 				sort.Slice(ts, func(a, b int) bool { return ts[a][0] < ts[b][0] })
+				seenT := map[string]bool{}
 				for j := range ss {
-					if g.handlerTgt[ss[j][1]] != ts[j][1] {
-						plain = false
+					if g.handlerTgt[ss[j][1]] != ts[j][1] || seenT[ts[j][1]] {
+						plain = false // forwarded, or two generating handlers on one downstream channel (their order is the scheduler's)
 					}
+					seenT[ts[j][1]] = true
 				}
 				var gens []label
 				if k == 1 && plain && r.Intn(3) == 0 {
@@ -220,12 +247,18 @@ func generate(a *hx.Args, mode string) ([]label, int) {
 			}
 		}
 	}
+	for i := 0; i < n; i++ {
+		startOne(false)
+	}
 	nfeeds := 6 + r.Intn(18)
 	dropBias := 4
 	if mode == "c04" {
 		dropBias = 12
 	}
 	for f := 0; f < nfeeds; f++ {
+		if late && ncoll < 3 && r.Intn(4) == 0 {
+			startOne(r.Intn(2) == 0)
+		}
 		var live []*stream
 		for _, s := range g.streams {
 			if !s.ended && !s.waiting {
